@@ -114,6 +114,36 @@ static inline uint64_t hash_step(uint64_t h, uint64_t v)
 	return mix64(h ^ (v + 0x9E3779B97F4A7C15ULL + (h << 6) + (h >> 2)));
 }
 
+/* generous wall-clock watchdog around one case: firing is inconclusive (exit 2) unless the case already reported a violation (exit 3) */
+#include <signal.h>
+#include <sys/time.h>
+int __real_sigaction(int signum, const struct sigaction *act, struct sigaction *old);
+
+static void mon_watchdog_fire(int sig)
+{
+	static const char m[] = "NOTE watchdog: case did not finish in time\n";
+	(void)sig;
+	if (__real_write(mon_out_fd, m, sizeof(m) - 1) < 0) {}
+	_exit(mon_viol_case ? 3 : 2);
+}
+
+static inline void mon_watchdog(int seconds)
+{
+	static int installed;
+	struct itimerval it;
+
+	if (!installed) {
+		struct sigaction sa;
+		memset(&sa, 0, sizeof(sa));
+		sa.sa_handler = mon_watchdog_fire;
+		__real_sigaction(SIGALRM, &sa, NULL);
+		installed = 1;
+	}
+	memset(&it, 0, sizeof(it));
+	it.it_value.tv_sec = seconds;
+	setitimer(ITIMER_REAL, &it, NULL);
+}
+
 static inline const char *arg_str(int argc, char **argv, const char *name, const char *def)
 {
 	int i;
